@@ -164,6 +164,32 @@ def check_gradient(case):
             outcome.append("wrong")
             break
         outcome.append("ok")
+    if not viol:
+        # one kept accessor object: asked, then the nodes of the same frame are moved in place (anisotropic stretch;
+        # index object and row order untouched), then asked again - the mesh it must answer for is the moved one
+        c = case["fields"][0]
+        try:
+            with warnings.catch_warnings():
+                warnings.simplefilter("ignore")
+                acc = getattr(df, "gradient" if op == "Gradient" else "gradient_3D")
+                df["f"] = _field(df, c)
+                acc.gradient_of("f")
+                df["x"] = df["x"] * 1.5 + 0.25 * df["y"]
+                df["y"] = df["y"] * 0.75
+                df["z"] = df["z"] * 1.25 + 0.125
+                df["f"] = _field(df, c)
+                g = acc.gradient_of("f")
+            cols = ["df_dx", "df_dy", "df_dz"]
+            err = float(np.nanmax(np.abs(g[cols].to_numpy(dtype=float) - np.array(c))))
+            if not np.isfinite(g[cols].to_numpy(dtype=float)).all() or err > 1e-9 * max(1.0, max(abs(x) for x in c)):
+                viol.append(("C19/%s%s/kept-accessor-after-moving-the-nodes/wrong-gradient" % (op, cls),
+                             {"field": list(c), "max_abs_error": err}))
+                outcome.append("kept-wrong")
+            else:
+                outcome.append("kept-ok")
+        except Exception as e:                       # noqa: BLE001
+            viol.append(("C19/%s%s/kept-accessor-after-moving-the-nodes/raises-%s" % (op, cls, type(e).__name__), {"msg": str(e)[:200]}))
+            outcome.append("kept-raise")
     return viol, outcome
 
 
